@@ -141,6 +141,9 @@ func (c *ColStr) DecodeColumn(r *Reader, rows int) error {
 
 		p.Start = p.End
 		p.End += n
+		if p.End < p.Start {
+			return errors.Errorf("row %d: length %d overflows", i, n)
+		}
 
 		if n > maxPrealloc && len(c.Buf) < p.End {
 			// Not trusting the length: the buffer grows as data arrives.
